@@ -4,7 +4,7 @@ from sa.dsl import T, _t
 from sa.terms import show, walk, mk, ZERO
 from sa.cfg import CFG
 from sa.prove import Prover
-from .common import engine, inventory, analysis_or_fail, prove
+from .common import engine, inventory, analysis_or_fail, prove, plain_iteration
 
 LEVEL = 'other'
 MANIFEST = {
@@ -22,7 +22,7 @@ MANIFEST = {
              '(it is guarded by the early return after the non-empty validation; that typestate argument is not mechanised).'),
 }
 EXPLANATION = 'Path conditions of all error pushes in the validators compared with the documented rules; ordering predicates evaluated abstractly; untrusted index taint.'
-RULES = ['C16-1.onload', 'C16-2.rules', 'C16-3.ascending', 'C16-4.noabort', 'C16-5.legacy', 'C16-6.siblings']
+RULES = ['C16-1.onload', 'C16-2.rules', 'C16-3.ascending', 'C16-4.noabort', 'C16-5.legacy', 'C16-6.siblings', 'C16-7.helpers']
 ASSUMPTIONS = ['serde reads the two file layouts as documented']
 
 SLICE_LINK = '<[Link] as ObjState>::validate'
@@ -113,6 +113,20 @@ DOC = [
     ('<[CatPowerLimit] as ObjState>::validate', 'catenary sections non-overlapping', 'push', r'iter\.(any|all)\(seq\[windows\(self\)', None, []),
     ('<CatPowerLimit as ObjState>::validate', 'catenary start <= end', 'push', r'\(self\.offset_start > self\.offset_end\)', True, []),
     ('<CatPowerLimit as ObjState>::validate', 'catenary power >= 0', 'call', r'si_chk_num_gez\(&self\.power_limit\)', None, []),
+    # ---- delegation: every level of the network reaches the validators of the level below
+    (LINK, 'per-train-type speed sets validated', 'call', r'validate_field_real\(&self\.speed_sets\)', None, [r'idx_curr\.idx == 0\)=False', r'is_empty\(self\.speed_sets\)=False']),
+    (LINK, 'train-type-neutral speed set validated', 'call', r'validate_field_real\(&self\.speed_set@Some', None, [r'is_empty\(self\.speed_sets\)=True']),
+    ('<HashMap<TrainType,SpeedSet> as ObjState>::validate', 'every speed set of the map validated', 'call', r'validate_slice_real\(', None, []),
+    ('<Vec<SpeedSet> as ObjState>::validate', 'every speed set validated', 'call', r'validate_slice_real\(&self\)', None, []),
+    ('<SpeedSet as ObjState>::validate', 'speed sections of a set validated', 'call', r'validate_field_real\(&\*?\(?self\)?\.speed_limits\)', None, []),
+    ('<SpeedSet as ObjState>::validate', 'speed params of a set validated', 'call', r'validate_field_real\(&\*?\(?self\)?\.speed_params\)', None, []),
+    ('<&SpeedSet as ObjState>::validate', 'speed sections of a set validated (by reference)', 'call', r'validate_field_real\(&\*?\(?self\)?\.speed_limits\)', None, []),
+    ('<OldSpeedSet as ObjState>::validate', 'speed sections of a legacy set validated', 'call', r'validate_field_real\(&\*?\(?self\)?\.speed_limits\)', None, []),
+    ('<[SpeedLimit] as ObjState>::validate', 'every speed section validated', 'call', r'validate_slice_real\(&self\)', None, []),
+    ('<[SpeedParam] as ObjState>::validate', 'every speed param validated', 'call', r'validate_slice_real\(&self\)', None, []),
+    ('<[Elev] as ObjState>::validate', 'every elevation validated', 'call', r'validate_slice_real\(&self\)', None, []),
+    ('<[Heading] as ObjState>::validate', 'every heading validated', 'call', r'validate_slice_real\(&self\)', None, []),
+    ('<[CatPowerLimit] as ObjState>::validate', 'every catenary section validated', 'call', r'validate_slice_real\(&self\)', None, []),
 ]
 
 
@@ -220,10 +234,11 @@ def run(ctx):
                   'rule present: error raised under %s' % ([('%s%s' % ('' if p else '!', cnd))[:90] for cnd, p in found[1]][-3:] if found else ''),
                   'no error is raised for this rule any more (check deleted, inverted or retargeted); expected a %s matching /%s/' % (kind, rx),
                   ctx.where(an.body, found[2].span) if found else ctx.where(an.body))
-    ctx.floor('documented rules checked', n, 40)
+    ctx.floor('documented rules checked', n, 53)
     ascending(ctx)
     noabort(ctx)
     legacy(ctx)
+    helpers(ctx)
 
 
 def onload(ctx):
@@ -439,3 +454,256 @@ def legacy(ctx):
     from_old = any('speed_sets' in show(a, an.names) for c in an.calls for a in c.argvals)
     ctx.check(sv is not None and ('speed_sets' in show(sv, an.names) or from_old), 'C16-5.legacy', fid + '|speed_sets', 'speed_sets is built from the legacy vector',
               'speed_sets is %s' % (show(sv, an.names)[:120] if sv else None), ctx.where(b))
+
+
+# ------------------------------------------------------------------ C16-7: the checking helpers every rule above goes through
+ARG = ('pre', (('obj', 2),))
+
+
+def _atom(c):
+    """name of the elementary test a decision of a numeric helper makes about its argument, or None"""
+    if c[0] == 'uf' and len(c) == 3 and c[2] == ARG:
+        nm = c[1].split('::')[-1]
+        if nm in ('is_nan', 'is_infinite', 'is_finite', 'is_fake'):
+            return nm
+    if c[0] in ('ge', 'gt', 'ne', 'eq', 'le', 'lt') and c[1] == ARG and c[2] == ZERO:
+        return c[0] + '0'
+    if c[0] == 'discr':
+        x = c[1]
+        if x[0] == 'uf' and x[1].endswith('partial_cmp') and x[2] == ARG and x[3] == ZERO:
+            return 'cmp_some'
+        if x[0] == 'proj' and x[1][0] == 'proj' and x[1][1][0] == 'uf' and x[1][1][1].endswith('partial_cmp') and x[1][1][2] == ARG and x[1][1][3] == ZERO:
+            return 'cmp_ord'
+    return None
+
+
+# worlds: the value class of the argument.  Each world fixes every atom.
+WORLDS = {
+    'NaN':  dict(is_nan=True,  is_infinite=False, is_finite=False, ge0=False, gt0=False, le0=False, lt0=False, ne0=True,  eq0=False, cmp_some=False, cmp_ord=None),
+    '-inf': dict(is_nan=False, is_infinite=True,  is_finite=False, ge0=False, gt0=False, le0=True,  lt0=True,  ne0=True,  eq0=False, cmp_some=True,  cmp_ord=255),
+    '<0':   dict(is_nan=False, is_infinite=False, is_finite=True,  ge0=False, gt0=False, le0=True,  lt0=True,  ne0=True,  eq0=False, cmp_some=True,  cmp_ord=255),
+    '0':    dict(is_nan=False, is_infinite=False, is_finite=True,  ge0=True,  gt0=False, le0=True,  lt0=False, ne0=False, eq0=True,  cmp_some=True,  cmp_ord=0),
+    '>0':   dict(is_nan=False, is_infinite=False, is_finite=True,  ge0=True,  gt0=True,  le0=False, lt0=False, ne0=True,  eq0=False, cmp_some=True,  cmp_ord=1),
+    '+inf': dict(is_nan=False, is_infinite=True,  is_finite=False, ge0=True,  gt0=True,  le0=False, lt0=False, ne0=True,  eq0=False, cmp_some=True,  cmp_ord=1),
+}
+# helper -> the worlds in which it must raise an error
+NUMERIC = {
+    'si_chk_num':         {'NaN'},
+    'si_chk_num_fin':     {'NaN', '-inf', '+inf'},
+    'si_chk_num_gez':     {'NaN', '-inf', '<0'},
+    'si_chk_num_gtz':     {'NaN', '-inf', '<0', '0'},
+    'si_chk_num_gez_fin': {'NaN', '-inf', '<0', '+inf'},
+    'si_chk_num_gtz_fin': {'NaN', '-inf', '<0', '0', '+inf'},
+    'si_chk_num_eqz':     {'NaN', '-inf', '<0', '>0', '+inf'},
+}
+
+
+def _holds(c, o, world):
+    """truth of decision (c, o) in a world; None when the decision is not one of the recognised tests"""
+    pos = True
+    while c[0] == 'not':
+        c = c[1]; pos = not pos
+    a = _atom(c)
+    if a is None:
+        return None
+    v = world[a]
+    if a == 'cmp_ord':
+        if v is None or o == 'otherwise':
+            return None
+        r = str(v) in o.split('|')
+    elif a == 'cmp_some':
+        r = (o != '0') == v
+    else:
+        r = (o != '0') == v
+    return r if pos else (not r)
+
+
+def _push_worlds(ctx, an, site_pc):
+    """the set of worlds in which a site with this path condition is reached, or None (unrecognised decision)"""
+    from .speedprofile import _alternatives
+    alts = _alternatives(site_pc)
+    if alts is None:
+        return None
+    out = set()
+    for wn, w in WORLDS.items():
+        for conj in alts:
+            vals = []
+            for c, o in conj:
+                if _atom(c) == 'cmp_ord' and w['cmp_some'] is False:
+                    vals.append(False); continue          # the ordering is only inspected under Some(..)
+                vals.append(_holds(c, o, w))
+            if any(v is None for v in vals):
+                return None
+            if all(vals):
+                out.add(wn); break
+    return out
+
+
+def _fn(ctx, name):
+    c = [b for f, b in ctx.prog.by_id.items() if (f == name or f.endswith('::' + name)) and not b.test and b.kind == 'fn']
+    return c[0] if len(c) == 1 else None
+
+
+def helpers(ctx):
+    """C16-7.helpers: every documented rule is raised through one of the small checking helpers of validate.rs, and every
+    level of the network (links -> elevation / heading / speed / catenary sections -> their elements) is reached through the
+    delegating helpers.  Decided here: each numeric helper raises its error in exactly the value classes its name promises
+    (NaN, -inf, negative, zero, positive, +inf; by evaluating the path condition of its error push in each class); the
+    field helpers raise on the wrong real/fake state and ALWAYS validate the field, handing every nested error on; the
+    slice helpers do the same for EVERY element of the slice (plain loop); the Vec / HashMap adaptors forward to them."""
+    R = 'C16-7.helpers'
+    eng = engine(ctx)
+    n = 0
+    for name, want in NUMERIC.items():
+        b = _fn(ctx, name)
+        if b is None:
+            ctx.unproved(R, name, 'helper not found (anchor)'); continue
+        eng.all_paths.add(b.fid)
+        an = analysis_or_fail(ctx, R, b)
+        if an is None:
+            continue
+        pushes = [c for c in an.calls if re.sub(r'::<.*?>', '', c.callee).endswith('ComboErrors::push')]
+        if len(pushes) != 1:
+            ctx.unproved(R, name, 'expected one error push, found %d' % len(pushes), ctx.where(b)); continue
+        got = _push_worlds(ctx, an, pushes[0].pc)
+        n += 1
+        if got is None:
+            ctx.unproved(R, name, 'the error push is decided by a test that is not one of the recognised elementary tests on the argument: %s'
+                         % [(show(c, an.names)[:80], o) for c, o in pushes[0].pc], ctx.where(b, pushes[0].span)); continue
+        ctx.check(got == want, R, name, 'raises an error exactly for %s' % sorted(want),
+                  'raises an error for %s, expected %s (differs on %s)' % (sorted(got), sorted(want), sorted(got ^ want)), ctx.where(b, pushes[0].span))
+    ctx.floor('numeric helpers', n, 7)
+
+    # field helpers
+    m = 0
+    for name, fake_expected in (('validate_field_real', False), ('validate_field_fake', True)):
+        b = _fn(ctx, name)
+        if b is None:
+            ctx.unproved(R, name, 'helper not found (anchor)'); continue
+        eng.all_paths.add(b.fid)
+        an = analysis_or_fail(ctx, R, b)
+        if an is None:
+            continue
+        m += 1
+        _delegating(ctx, R, name, b, an, fake_expected, elementwise=False)
+    for name, fake_expected in (('validate_slice_real_shift', False), ('validate_slice_fake_shift', True)):
+        b = _fn(ctx, name)
+        if b is None:
+            ctx.unproved(R, name, 'helper not found (anchor)'); continue
+        eng.all_paths.add(b.fid)
+        an = analysis_or_fail(ctx, R, b)
+        if an is None:
+            continue
+        m += 1
+        _delegating(ctx, R, name, b, an, fake_expected, elementwise=True)
+    # thin forwarders
+    for name, target in (('validate_slice_real', 'validate_slice_real_shift'), ('validate_slice_fake', 'validate_slice_fake_shift')):
+        b = _fn(ctx, name)
+        if b is None:
+            ctx.unproved(R, name, 'helper not found (anchor)'); continue
+        eng.all_paths.add(b.fid)
+        an = analysis_or_fail(ctx, R, b)
+        if an is None:
+            continue
+        m += 1
+        cs = [c for c in an.calls if re.sub(r'::<.*?>', '', c.callee).endswith(target)]
+        ok = len(cs) == 1 and not cs[0].pc and len(cs[0].argvals) >= 2 and cs[0].argvals[1] in (('pre', (('val', 2),)), ('ref', (('obj', 2),), 'shr'), ('pre', (('obj', 2),))) \
+            or (len(cs) == 1 and not cs[0].pc and 'arg2' in show(cs[0].argvals[1], an.names))
+        ctx.check(ok, R, name, 'forwards the whole slice, unconditionally, to %s' % target,
+                  'does not forward its slice unconditionally to %s: %s' % (target, [(show(a, an.names)[:60]) for c in cs for a in c.argvals]), ctx.where(b))
+    ctx.floor('delegating helpers', m, 6)
+    # the map adaptor hands ALL its values on
+    fid = '<HashMap<TrainType,SpeedSet> as ObjState>::validate'
+    b = ctx.prog.by_id.get(fid)
+    if b is None:
+        ctx.unproved(R, fid, 'validator not found (anchor)')
+    else:
+        eng.all_paths.add(fid)
+        an = analysis_or_fail(ctx, R, b)
+        if an is not None:
+            cs = [c for c in an.calls if re.sub(r'::<.*?>', '', c.callee).endswith('validate_slice_real')]
+            pt = cs[0].pointees[1] if len(cs) == 1 and cs[0].pointees and len(cs[0].pointees) > 1 else None
+            txt = show(pt, an.names) if pt is not None else None
+            ctx.check(len(cs) == 1 and not cs[0].pc and txt == 'iter.collect(HashMap::values(self))', R, fid + '|all values',
+                      'every value of the map is handed to validate_slice_real', 'the slice handed on is %s' % txt, ctx.where(b))
+
+
+def _delegating(ctx, R, name, b, an, fake_expected, elementwise):
+    norm_c = lambda c: re.sub(r'::<.*?>', '', c.callee)
+    pushes = [c for c in an.calls if norm_c(c).endswith('ComboErrors::push')]
+    vals = [c for c in an.calls if norm_c(c).endswith('ObjState>::validate')]
+    apps = [c for c in an.calls if norm_c(c).endswith('::append')]
+    w = ctx.where(b)
+    if len(pushes) != 1 or len(vals) != 1 or len(apps) != 1:
+        ctx.unproved(R, name, 'expected one error push, one validate() call and one append of nested errors; found %d / %d / %d' % (len(pushes), len(vals), len(apps)), w)
+        return
+
+    def strip_iter(pc):
+        out, it = [], 0
+        for c, o in pc or ():
+            if plain_iteration(c) and o == '1':
+                it += 1
+            else:
+                out.append((c, o))
+        return out, it
+
+    def subject(t):
+        """the thing is_fake / validate is asked about: the field (arg 2) or, elementwise, an element of the slice (arg 2)"""
+        s_ = show(t, an.names)
+        return s_
+
+    # (1) the real / fake test
+    ppc, it = strip_iter(pushes[0].pc)
+    from .speedprofile import _alternatives
+    alts = _alternatives(ppc)
+    ok = alts is not None and bool(alts)
+    seen_subject = None
+    if ok:
+        for truth in (True, False):          # is_fake(x) = truth: pushed?
+            pushed = False
+            for conj in alts:
+                vs = []
+                for c, o in conj:
+                    pos = True
+                    while c[0] == 'not':
+                        c = c[1]; pos = not pos
+                    if c[0] == 'uf' and c[1].endswith('is_fake') and len(c) == 3:
+                        seen_subject = c[2]
+                        v = (o != '0') == truth
+                        vs.append(v if pos else not v)
+                    else:
+                        vs.append(None)
+                if any(v is None for v in vs):
+                    ok = False; break
+                if all(vs):
+                    pushed = True
+            if not ok:
+                break
+            if pushed != (truth != fake_expected):
+                ok = False; break
+    want_txt = 'fake' if not fake_expected else 'real'
+    ctx.check(ok and (it == 1) == elementwise, R, name + '|state',
+              'an error is raised exactly when the %s is %s' % ('element' if elementwise else 'field', want_txt),
+              'the error push is decided by %s' % [(show(c, an.names)[:80], o) for c, o in pushes[0].pc], ctx.where(b, pushes[0].span))
+    # (2) validate() is always called (for every element), on the same subject
+    vpc, vit = strip_iter(vals[0].pc)
+    subj = vals[0].argvals[0] if vals[0].argvals else None
+    subj_s = show(subj, an.names) if subj is not None else ''
+    def path_of(t):
+        while t is not None and t[0] in ('deref',):
+            t = t[1]
+        if t is not None and t[0] in ('pre', 'ref'):
+            return t[1]
+        return None
+    same = seen_subject is not None and path_of(seen_subject) is not None and path_of(seen_subject) == path_of(subj)
+    ctx.check(not vpc and (vit == 1) == elementwise and same, R, name + '|validate',
+              'validate() is called on %s, unconditionally' % ('every element of the slice' if elementwise else 'the field'),
+              'validate() is called under %s on %s (the real/fake test is about %s)' % ([(show(c, an.names)[:80], o) for c, o in vals[0].pc], subj_s[:80],
+                                                                                     show(seen_subject, an.names)[:80] if seen_subject else None), ctx.where(b, vals[0].span))
+    # (3) nested errors are handed on whenever validate() returned Err, into the caller's error list
+    apc, ait = strip_iter(apps[0].pc)
+    okc = len(apc) == 1 and apc[0][0][0] == 'discr' and apc[0][0][1] == vals[0].result and apc[0][1] == '1' and (ait == 1) == elementwise
+    dst = show(apps[0].argvals[0], an.names) if apps[0].argvals else ''
+    ctx.check(okc and ('arg1' in dst or 'errors' in dst), R, name + '|nested',
+              'the nested errors are appended to the caller\'s error list exactly when validate() returned Err',
+              'append of nested errors is decided by %s, destination %s' % ([(show(c, an.names)[:80], o) for c, o in apps[0].pc], dst[:80]), ctx.where(b, apps[0].span))
